@@ -3,7 +3,7 @@
 use crate::util::*;
 use concordium_base::{
     common::cbor::{cbor_decode_with_options, cbor_encode, value::Value as CValue, CborDeserialize, CborSerialize, SerializationOptions, UnknownMapKeys},
-    protocol_level_tokens::{CborHolderAccount, TokenAmount, TokenOperation, TokenOperations},
+    protocol_level_tokens::{CborHolderAccount, MetadataUrl, TokenAmount, TokenModuleAccountState, TokenModuleState, TokenOperation, TokenOperations},
 };
 use serde_json::{json, Value};
 
@@ -33,13 +33,18 @@ struct D {
     fields: Value,
 }
 
-fn dec<T: CborDeserialize + CborSerialize + PartialEq>(b: &[u8], opts: SerializationOptions, fields: impl Fn(&T) -> Value) -> Option<D> {
+fn dec<T: CborDeserialize + CborSerialize + PartialEq>(b: &[u8], opts: SerializationOptions, fields: impl Fn(&T) -> Value) -> Option<D> { dec_eq(b, opts, fields, |a: &T, b: &T| a == b) }
+
+/// `same` decides whether two decoded values are the same value (generic CBOR maps are sequences of entries in
+/// the data model of the library and are re-encoded in deterministic key order, so they are compared by encoding only).
+fn dec_eq<T: CborDeserialize + CborSerialize>(b: &[u8], opts: SerializationOptions, fields: impl Fn(&T) -> Value, same: impl Fn(&T, &T) -> bool) -> Option<D> {
     let v: T = cbor_decode_with_options(b, opts).ok()?;
     let reenc = cbor_encode(&v).ok();
     // decode . encode . decode is stable, and encoding is deterministic
     let stable = match &reenc {
         Some(y) => match cbor_decode_with_options::<T>(y, opts) {
-            Ok(v2) => cbor_encode(&v2).ok().as_ref() == Some(y) && cbor_encode(&v).ok().as_ref() == Some(y),
+            // ... and decoding the encoding yields the same value again
+            Ok(v2) => same(&v2, &v) && cbor_encode(&v2).ok().as_ref() == Some(y) && cbor_encode(&v).ok().as_ref() == Some(y),
             Err(_) => false,
         },
         None => false,
@@ -84,9 +89,26 @@ pub fn main(args: &[String]) -> i32 {
             }
             return Ok(());
         }
+        if ty == "TokenAmountBadText" {
+            use concordium_base::protocol_level_tokens::ConversionRule;
+            let dec_n = v["decimals"].as_u64().unwrap() as u8;
+            let text: String = v["text"].as_array().unwrap().iter().map(|c| c.as_str().unwrap()).collect();
+            // with rounding allowed a tiny negative fraction may round to zero; whole negative numbers and non-numbers never denote an amount
+            let rules = if text.contains('.') && text.starts_with('-') { vec![ConversionRule::Exact] } else { vec![ConversionRule::Exact, ConversionRule::AllowRounding] };
+            for rule in rules {
+                if let Ok(a) = TokenAmount::from_str(&text, dec_n, rule) {
+                    return Err((format!("TokenAmount::from_str({:?}, {}) accepts a string that denotes no amount", text, dec_n), json!("error"), json!(a.to_string())));
+                }
+            }
+            return Ok(());
+        }
         let base = crate::alloc::reset();
         let d = match ty {
-            "Value" => dec::<CValue>(&bytes, opts, |_| Value::Null),
+            "TokenModuleState" => dec::<TokenModuleState>(&bytes, opts, |s| json!({"additional": s.additional.len()})),
+            "TokenModuleAccountState" => dec::<TokenModuleAccountState>(&bytes, opts, |s| json!({"additional": s.additional.len(), "allow_list": s.allow_list})),
+            "MetadataUrl" => dec::<MetadataUrl>(&bytes, opts, |s| json!({"additional": s.additional.len()})),
+            "OptionU64" => dec::<Option<u64>>(&bytes, opts, |_| Value::Null),
+            "Value" => dec_eq::<CValue>(&bytes, opts, |_| Value::Null, |_, _| true),
             "TokenAmount" => dec::<TokenAmount>(&bytes, opts, |a| json!({"value": a.value().to_string(), "decimals": a.decimals()})),
             "TokenOperations" => dec::<Vec<TokenOperation>>(&bytes, opts, |_| Value::Null),
             "TokenOperationsUpward" => dec::<TokenOperations>(&bytes, opts, |o| json!({"n": o.operations.len()})),
@@ -100,14 +122,14 @@ pub fn main(args: &[String]) -> i32 {
         match (expect, d) {
             ("reject", Some(_)) => Err((format!("{}: input of class '{}' must be rejected but was accepted", ty, v["class"].as_str().unwrap_or("?")), json!("reject"), json!(hex::encode(&bytes)))),
             ("reject", None) => Ok(()),
-            ("accept", None) => Err((format!("{}: deterministic encoding of the spec rejected", ty), json!("accept"), json!(hex::encode(&bytes)))),
+            ("accept", None) | ("accept_any_order", None) => Err((format!("{}: valid encoding of the spec rejected", ty), json!("accept"), json!(hex::encode(&bytes)))),
             (_, None) => Ok(()),
             (e, Some(d)) => {
                 if !d.stable {
                     return Err((format!("{}: decode . encode . decode is not stable or encoding is not deterministic", ty), Value::Null, json!(hex::encode(&bytes))));
                 }
-                if e == "accept" {
-                    if d.reenc.as_deref() != Some(&bytes[..]) {
+                if e == "accept" || e == "accept_any_order" {
+                    if e == "accept" && d.reenc.as_deref() != Some(&bytes[..]) {
                         return Err((format!("{}: decoded value does not re-encode to the deterministic encoding", ty), json!(hex::encode(&bytes)), json!(d.reenc.map(hex::encode))));
                     }
                     if let Some(fields) = v["fields"].as_object() {
